@@ -180,7 +180,7 @@ Proof. unfold do_pop. rewrite rev_app_distr. cbn. now rewrite rev_involutive. Qe
 
 (* ---------------------------------------------------------------- well-nested blocks *)
 Definition is_mut (o : op) : bool :=
-  match o with OSet _ _ | OAppend _ _ | ORead _ _ _ | OLen _ | OPushCheck _ => true | _ => false end.
+  match o with OSet _ _ | OAppend _ _ | OAppendIn _ _ _ | ORead _ _ _ | OLen _ | OPushCheck _ => true | _ => false end.
 Inductive wn : list op -> Prop :=
   | wn_nil : wn []
   | wn_mut o B : is_mut o = true -> wn B -> wn (o :: B)
@@ -209,6 +209,10 @@ Proof.
        |apply frames_of_eq; now apply dget_dset_other]).
   - destruct (dget m g) as [[]|] eqn:Eg; inversion Hs; subst; auto.
     destruct (N.eqb k 3); inversion Hs; subst; auto.
+    destruct (N.eq_dec s g) as [->|Hne];
+      [unfold frames_of; rewrite dget_dset_same, Eg; reflexivity|apply frames_of_eq; now apply dget_dset_other].
+  - destruct (dget m g) as [[]|] eqn:Eg; inversion Hs; subst; auto.
+    match type of Hs with context [nth_error ?l ?j] => destruct (nth_error l j) end; inversion Hs; subst; auto.
     destruct (N.eq_dec s g) as [->|Hne];
       [unfold frames_of; rewrite dget_dset_same, Eg; reflexivity|apply frames_of_eq; now apply dget_dset_other].
   - destruct (decl_of ds s0); [|inversion Hs; subst; auto].
